@@ -397,6 +397,18 @@ func unsafeCmpZero(ptr unsafe.Pointer, size int) bool {
 	return *(*string)(unsafe.Pointer(&s1)) == *(*string)(unsafe.Pointer(&s2)) // memcmp
 }
 
+// unsafeCmpZeroRV reports whether the memory of the value is all zero.
+//
+// A pointer-shaped value (ptr, map, chan, func, or a struct/array made of exactly one of them)
+// that is not addressable is held directly in urv.ptr (flagIndir unset): its memory is that
+// single word, not what the word points to.
+func unsafeCmpZeroRV(urv *unsafeReflectValue, size int) bool {
+	if urv.flag&unsafeFlagIndir == 0 {
+		return urv.ptr == nil
+	}
+	return unsafeCmpZero(urv.ptr, size)
+}
+
 func isEmptyValue(v reflect.Value, tinfos *TypeInfos, recursive bool) bool {
 	urv := (*unsafeReflectValue)(unsafe.Pointer(&v))
 	if urv.flag == 0 {
@@ -405,7 +417,7 @@ func isEmptyValue(v reflect.Value, tinfos *TypeInfos, recursive bool) bool {
 	if recursive {
 		return isEmptyValueFallbackRecur(urv, v, tinfos)
 	}
-	return unsafeCmpZero(urv.ptr, int(rtsize2(urv.typ)))
+	return unsafeCmpZeroRV(urv, int(rtsize2(urv.typ)))
 }
 
 func isEmptyValueFallbackRecur(urv *unsafeReflectValue, v reflect.Value, tinfos *TypeInfos) bool {
@@ -459,16 +471,16 @@ func isEmptyValueFallbackRecur(urv *unsafeReflectValue, v reflect.Value, tinfos 
 		if ti == nil {
 			ti = tinfos.load(v.Type())
 		}
-		return unsafeCmpZero(urv.ptr, int(ti.size))
+		return unsafeCmpZeroRV(urv, int(ti.size))
 	case reflect.Interface, reflect.Ptr:
 		// isnil := urv.ptr == nil // (not sufficient, as a pointer value encodes the type)
-		isnil := urv.ptr == nil || *(*unsafe.Pointer)(urv.ptr) == nil
+		isnil := urv.ptr == nil || (urv.flag&unsafeFlagIndir != 0 && *(*unsafe.Pointer)(urv.ptr) == nil)
 		if recursive && !isnil {
 			return isEmptyValue(v.Elem(), tinfos, recursive)
 		}
 		return isnil
 	case reflect.UnsafePointer:
-		return urv.ptr == nil || *(*unsafe.Pointer)(urv.ptr) == nil
+		return urv.ptr == nil || (urv.flag&unsafeFlagIndir != 0 && *(*unsafe.Pointer)(urv.ptr) == nil)
 	case reflect.Chan:
 		return urv.ptr == nil || len_chan(rvRefPtr(urv)) == 0
 	case reflect.Map:
@@ -478,7 +490,7 @@ func isEmptyValueFallbackRecur(urv *unsafeReflectValue, v reflect.Value, tinfos 
 			urv.ptr == nil ||
 			urv.typ == nil ||
 			rtsize2(urv.typ) == 0 ||
-			unsafeCmpZero(urv.ptr, int(rtsize2(urv.typ)))
+			unsafeCmpZeroRV(urv, int(rtsize2(urv.typ)))
 	}
 	return false
 }
@@ -497,10 +509,10 @@ func isEmptyContainerValue(v reflect.Value, tinfos *TypeInfos, recursive bool) b
 		if ti == nil {
 			ti = tinfos.load(v.Type())
 		}
-		return unsafeCmpZero(urv.ptr, int(ti.size))
+		return unsafeCmpZeroRV(urv, int(ti.size))
 	case reflect.Interface, reflect.Ptr:
 		// isnil := urv.ptr == nil // (not sufficient, as a pointer value encodes the type)
-		isnil := urv.ptr == nil || *(*unsafe.Pointer)(urv.ptr) == nil
+		isnil := urv.ptr == nil || (urv.flag&unsafeFlagIndir != 0 && *(*unsafe.Pointer)(urv.ptr) == nil)
 		if recursive && !isnil {
 			return isEmptyValue(v.Elem(), tinfos, recursive)
 		}
@@ -514,7 +526,7 @@ func isEmptyContainerValue(v reflect.Value, tinfos *TypeInfos, recursive bool) b
 			urv.ptr == nil ||
 			urv.typ == nil ||
 			rtsize2(urv.typ) == 0 ||
-			unsafeCmpZero(urv.ptr, int(rtsize2(urv.typ)))
+			unsafeCmpZeroRV(urv, int(rtsize2(urv.typ)))
 	}
 	return false
 }
